@@ -3,6 +3,8 @@ package eval
 import (
 	"errors"
 	"fmt"
+	"maps"
+	"slices"
 
 	"github.com/cedar-policy/cedar-go/internal/consts"
 	"github.com/cedar-policy/cedar-go/internal/extensions"
@@ -734,9 +736,11 @@ func newRecordLiteralEval(elements map[types.String]Evaler) *recordLiteralEval {
 }
 
 func (n *recordLiteralEval) Eval(env Env) (types.Value, error) {
-	vals := types.RecordMap{}
-	for k, en := range n.elements {
-		v, err := en.Eval(env)
+	vals := make(types.RecordMap, len(n.elements))
+	// evaluate the fields in key order so that the error reported for a record with
+	// several failing fields does not depend on map iteration order
+	for _, k := range slices.Sorted(maps.Keys(n.elements)) {
+		v, err := n.elements[k].Eval(env)
 		if err != nil {
 			return zeroValue(), err
 		}
